@@ -178,7 +178,28 @@ def scn_wire(params):
 
         nraw = [0]
 
+        given = []           # (number of queries seen so far, challenge, user id) of every version answer handed out
+        nlogin = [0]
+        refuse = params.get("refuse")       # None | BADIP | LNAK | lost | garbage: how the first login(s) are answered
+
         def hook(step, q, default, src):
+            if step == "V" and default is not None:
+                # every version handshake hands out a fresh challenge (as iodined does), sometimes another slot as well
+                if given:
+                    hs.challenge = (hs.challenge * 1103515245 + 12345 + len(given)) & 0xFFFFFFFF
+                    if refuse and params["idx"] % 2:
+                        hs.userid = (hs.userid + 1) % 16
+                    from simnet import mserver as _ms
+                    default = _ms.build_answer(q, b"VACK" + struct.pack(">I", hs.challenge) + bytes([hs.userid]), "T")
+                given.append((len(hs.queries), hs.challenge & 0xFFFFFFFF, hs.userid))
+                return default
+            if step == "L" and default is not None and refuse:
+                nlogin[0] += 1
+                if nlogin[0] <= params.get("nrefuse", 1):
+                    if refuse == "lost":
+                        return None
+                    from simnet import mserver as _ms
+                    return _ms.build_answer(q, {"BADIP": b"BADIP", "LNAK": b"LNAK", "garbage": b"x-y"}[refuse], hs.downenc)
             if step == "RAW" and default is not None:
                 nraw[0] += 1
                 if nraw[0] <= params.get("drop_raw", 0):
@@ -234,19 +255,31 @@ def scn_wire(params):
         wit = {"seed": seed, "password": pw.hex(), "password_len": len(pw), "challenge": "0x%08x" % ch, "params": params}
         out["sets"]["password_given_via"] = {params.get("pw_via", "P")}
         nd = len(hs.domain)
-        for q in hs.queries:
+        # every login the client sent - the first one, retransmissions, logins after a refusal - answers the challenge of the version
+        # answer it received last, for the user id given there
+        for qi, q in enumerate(hs.queries):
             labels = q.qd[0][0]
             text = b"".join(labels[:len(labels) - nd])
             if text[:1].lower() != b"l":
                 continue
+            cur = [g for g in given if g[0] <= qi + 1]
+            if not cur:
+                continue
+            _n, cur_ch, cur_uid = cur[-1]
             raw = proto.BASE32.decode(text[1:])
             out["stats"]["wire_dns_logins"] += 1
             out["evaluations"] += 1
-            want = oracle(pw, ch)
-            if len(raw) < 17 or raw[1:17] != want or raw[0] != params["userid"]:
-                out["violations"].append(("C19:wire:login-digest", "the client's login message carries %s, the documented response for password len %d challenge 0x%08x is %s"
-                                          % (raw[1:17].hex(), len(pw), ch, want.hex()), wit))
-            break
+            if len(cur) > 1:
+                out["stats"]["wire_logins_after_a_second_version_handshake"] = out["stats"].get("wire_logins_after_a_second_version_handshake", 0) + 1
+            want = oracle(pw, cur_ch)
+            if len(raw) < 17 or raw[1:17] != want or raw[0] != cur_uid:
+                out["violations"].append(("C19:wire:login-digest", "the client's login message #%d (user id %d) carries %s, the documented response for password len %d and the challenge it was given last (0x%08x, user id %d) is %s"
+                                          % (out["stats"]["wire_dns_logins"], raw[0] if raw else -1, raw[1:17].hex(), len(pw), cur_ch, cur_uid, want.hex()), wit))
+                break
+        if refuse:
+            out["nontrivial"].append(repr(("wire-refused-login", refuse, len(given))))
+        if given:
+            ch = given[-1][1]            # (raw-mode logins answer the challenge given last)
         rawlog = [d for d in hs.raw_seen if len(d) >= 4 and (d[3] & 0xF0) == proto.RAW_LOGIN]
         if rawlog:
             out["stats"]["wire_raw_logins"] += 1
@@ -420,7 +453,7 @@ def wire_params(ctx, rng):
                       "raw": i % 2 == 0, "drop_raw": rng.choice([0, 0, 1, 2, 3]), "reply": rng.choice(["good", "good", "dns-hash", "plus1", "bitflip"]), "flip": rng.randrange(128),
                       "qtype": rng.choice(["NULL", "TXT", "CNAME", "MX"]),
                       "pw_via": (rng.choice(["stdin-nl", "stdin-nonl", "stdin-nonl"]) if style == 0 and rng.random() < 0.4 else "P"),
-                      "tty_edit": i % 4})
+                      "tty_edit": i % 4, "refuse": [None, None, None, "BADIP", "lost", "LNAK", "garbage", "BADIP"][i % 8], "nrefuse": 1 + (i // 8) % 3})
         if style == 0 and i % 16 == 5 and b" " not in pw and b"\t" not in pw:
             plist[-1]["pw_via"] = "tty"
     return plist
